@@ -24,6 +24,12 @@ type ctlCase struct {
 	// Input: machine cycles before which the front end reports a key press to the CPU (cpu.OnInput, the
 	// display's callback). A key press requests no interrupt in this emulator, so it must not end a HALT.
 	Input []int `json:"input,omitempty"`
+	// SP, PC: stack pointer and code address at the start (0 = DF00 / C000). With SP = 0001 the low byte of the pushed
+	// return address lands on IE, with SP = FF11 on IF: the interrupt was selected and acknowledged before that byte is
+	// written, so the dispatch goes to the same vector and the byte is what IE / IF hold afterwards. (A HIGH byte
+	// landing on IE / IF is written before the selection on hardware and can cancel the dispatch: not enumerated.)
+	SP uint16 `json:"sp,omitempty"`
+	PC uint16 `json:"pc,omitempty"`
 }
 
 type ifEvent struct {
@@ -85,19 +91,26 @@ func request(e *cpuEnv, k int) {
 func (e *cpuEnv) runControl(l *explore.Local, c ctlCase) *explore.Fail {
 	// machine setup (a preceding case may have been pruned half-way: drop its pending reference writes)
 	e.log = e.log[:0]
+	pc, sp := uint16(0xc000), uint16(0xdf00)
+	if c.PC != 0 {
+		pc = c.PC
+	}
+	if c.SP != 0 {
+		sp = c.SP
+	}
 	for i := 0; i < 24; i++ {
 		b := uint8(0)
 		if i < len(c.Code) {
 			b = c.Code[i]
 		}
-		e.poke(0xc000+uint16(i), b)
+		e.poke(pc+uint16(i), b)
 	}
 	e.poke(0xdf00, 0x80) // return address C280 for RETI/RET (NOPs there)
 	e.poke(0xdf01, 0xc2)
 	for i := 0; i < 8; i++ {
 		e.poke(0xc280+uint16(i), 0)
 	}
-	regs := cpu.VRegs{A: c.A, F: 0x00, B: 0x1b, C: 0x2c, D: 0x3d, E: 0x4e, H: 0xc8, L: 0x5f, SP: 0xdf00, PC: 0xc000}
+	regs := cpu.VRegs{A: c.A, F: 0x00, B: 0x1b, C: 0x2c, D: 0x3d, E: 0x4e, H: 0xc8, L: 0x5f, SP: sp, PC: pc}
 	e.m.CPU.VSet(regs)
 	e.m.Map.Write(0xffff, c.IE)
 	e.m.Map.Write(0xff0f, c.IF)
@@ -142,6 +155,9 @@ func (e *cpuEnv) runControl(l *explore.Local, c ctlCase) *explore.Fail {
 	wakeStart := 0
 	var lastRegs ref.CPU
 	desc := func() string {
+		if c.SP != 0 || c.PC != 0 {
+			return fmt.Sprintf("code=% x at %04x SP=%04x IME=%v IE=%02x IF=%02x inj=%v", c.Code, pc, sp, c.IME, c.IE, c.IF, c.Inj)
+		}
 		if len(c.Input) > 0 {
 			return fmt.Sprintf("code=% x IME=%v IE=%02x IF=%02x inj=%v key-press-before-cycle=%v", c.Code, c.IME, c.IE, c.IF, c.Inj, c.Input)
 		}
@@ -306,6 +322,15 @@ func c04Check(l *explore.Local, e *cpuEnv, b c04Block) *explore.Fail {
 					return wrap(f, c)
 				}
 			}
+			// the stack wraps onto the interrupt registers: the low byte of the return address is pushed onto IE / IF
+			for _, sp := range []uint16{0x0001, 0xff11} {
+				for _, pc := range []uint16{0xc000, 0xc00c, 0xc013, 0xc01f} {
+					c := ctlCase{Code: []uint8{0x3c, 0x3c}, IME: b.IME, IE: b.IE, IF: uint8(iff), Cycles: 9, SP: sp, PC: pc}
+					if f := e.runControl(l, c); f != nil {
+						return wrap(f, c)
+					}
+				}
+			}
 		}
 	case "prog":
 		var code []uint8
@@ -368,7 +393,7 @@ func init() {
 			c.R.Rule = "(a) complete table IE(32) x IF(32) x IME(2) (+ unused high bits) at an instruction boundary; (b) every program of the length bound over {NOP, EI, DI, RETI, INC A, LDH (0F),A, LDH (FF),A, LD A,00, LD A,1F} x initial IME x IE in {00,1F,01,04,10,05} x one interrupt request of every source raised before every machine cycle 0..13 (and none), and for programs of up to 2 instructions (thorough 3) every pair of requests; the real CPU runs cycle by cycle, the reference control machine boundary by boundary; compared at every boundary: boundary times (dispatch = 5 cycles), all registers, IF, IE, pushed return address"
 			c.R.Assumptions = []string{"a request arriving while a dispatch is in progress: which source wins is unspecified (pruned)", "the IME flag itself is not observed, only its behavioural effect", "HALT directly after EI is outside this alphabet (C05 covers HALT)"}
 		}
-		explore.Product(c.R, "boundary-table", explore.PartOpt{Bound: "one boundary + following instruction", Domain: "IE 0-31 x IF 0-31 x IME x high bits {00,E0}"},
+		explore.Product(c.R, "boundary-table", explore.PartOpt{Bound: "one boundary + following instruction", Domain: "IE 0-31 x IF 0-31 x IME x high bits {00,E0}; again with the stack placed so that the low byte of the return address is pushed onto IE (SP=0001) or IF (SP=FF11) x 4 code addresses"},
 			func(yield func(c04Block) bool) {
 				for ie := 0; ie < 32; ie++ {
 					for _, ime := range []bool{false, true} {
